@@ -293,7 +293,7 @@ pub fn finish(ctx: &Ctx) -> i32 {
     crate::engine::finish(
         ctx,
         Finish {
-            rule: "for each of the 45 enumerations and 15 bit-mask types: all words 0..=2^17, every declared value +-1/+-2, every power of two +-1, 0x7fffffff, 0x80000000, 0xffffffff, mask complements; random words (biased to declared values +-2 and declared bits plus one stray bit); thorough tier: ALL 2^32 words per type. Oracle: conversion yields a value iff the number is a golden declared value (checked without touching an undeclared value), value converts back to the same number, Debug name = declared name, FromStr(name) = value, every alias parses to the value it aliases, undeclared names rejected, masks accept iff all set bits are declared, named constants = declared, typed decoder request returns the same value or <Kind>Unknown(0, word). non-trivial = probe at or adjacent to a boundary of the declared set (masks: at most one undeclared bit); distinct = (type, word).",
+            rule: "for each of the 45 enumerations and 15 bit-mask types: all words 0..=2^17, every declared value +-1/+-2, every power of two +-1, 0x7fffffff, 0x80000000, 0xffffffff, mask complements; random words (biased to declared values +-2 and declared bits plus one stray bit); thorough tier: ALL 2^32 words per type. Oracle: conversion yields a value iff the number is a golden declared value (checked without touching an undeclared value), value converts back to the same number, Debug name = declared name, FromStr(name) = value, every alias parses to the value it aliases, undeclared names rejected, masks accept iff all set bits are declared, named constants = declared, typed decoder request returns the same value or <Kind>Unknown(0, word). non-trivial = probe at or adjacent to a boundary of the declared set (masks: at most one undeclared bit); distinct = (type, word). Added in rounds 18-19: declared-aliases: the alias constants declared in the working tree's spirv sources (read at build time) equal and parse to the value they alias.",
             assumptions: vec![
                 "declared values/names/aliases = the golden snapshot of the pinned tree (api.json from the public API by a complete 2^32 sweep, source.json from the source text), cross-checked between enum declaration, from_u32 ranges, FromStr tables, alias constants and ~900 hand-typed specification anchors (golden/verify.py); the Khronos JSON itself is not available offline".into(),
             ],
